@@ -114,11 +114,29 @@ def unrotate(variant, l, b):
     return c.ra.rad, c.dec.rad
 
 
+LAYOUTS = ("C", "F", "strided", "readonly")
+
+
+def layout_of(variant, ny, nx):
+    """the memory layout in which the map is handed to the sampler (same logical content):
+    C order, Fortran order, a strided view of a larger array, a read-only array"""
+    return LAYOUTS[(3 * ny + 5 * nx + len(variant)) % 4]
+
+
 def observe(variant, ny, nx, colour, lon, lat):
     """Call the real sampler; decode which (iy, ix) each output element came from.
     Returns dict(oy, ox, shape_ok, decode_ok) or dict(error=...)."""
     from toasty import samplers
     data = make_data(ny, nx, colour)
+    lay = layout_of(variant, ny, nx)
+    if lay == "F":
+        data = np.asfortranarray(data)
+    elif lay == "strided":
+        big = np.zeros((2 * ny, 2 * nx) + data.shape[2:], dtype=data.dtype)
+        big[::2, ::2] = data
+        data = big[::2, ::2]
+    elif lay == "readonly":
+        data.setflags(write=False)
     try:
         s = getattr(samplers, VARIANTS[variant][0])(data)
         out = s(lon, lat)
@@ -126,7 +144,7 @@ def observe(variant, ny, nx, colour, lon, lat):
         return dict(error=f"{type(e).__name__}: {e}", etype=type(e).__name__)
     out = np.asarray(out)
     want_shape = np.shape(lon) + tuple(colour)
-    res = dict(shape=tuple(out.shape), want_shape=tuple(want_shape), shape_ok=tuple(out.shape) == tuple(want_shape))
+    res = dict(shape=tuple(out.shape), want_shape=tuple(want_shape), shape_ok=tuple(out.shape) == tuple(want_shape), layout=lay)
     if not res["shape_ok"]:
         return res
     c = int(np.prod(colour)) if colour else 1
@@ -275,7 +293,7 @@ def rotation_sanity(rng, V):
 # ------------------------------------------------------------------ run
 
 def point_case(variant, ny, nx, colour, lon, lat):
-    return dict(variant=variant, ny=ny, nx=nx, colour=list(colour), lon_hex=float(lon).hex(), lat_hex=float(lat).hex(),
+    return dict(layout=layout_of(variant, ny, nx), variant=variant, ny=ny, nx=nx, colour=list(colour), lon_hex=float(lon).hex(), lat_hex=float(lat).hex(),
                 lon=float(lon), lat=float(lat))
 
 
